@@ -38,11 +38,13 @@ ASSUMPTIONS = [
 	"dinucleotide_shuffle may raise (region too short, all shuffles "
 	"identical); only returned results are judged, and a run in which it "
 	"never returned is inconclusive",
-	"regions are given as explicit 0 <= start < end <= L; the default "
-	"(start=0, end=-1) call is judged on whole-sequence composition, which "
-	"both documented conventions imply",
+	"regions are given as explicit 0 <= start < end <= L or with a negative "
+	"end; the default (start=0, end=-1) call is judged on whole-sequence "
+	"composition and a negative end -k on the region [start, L+1-k), which "
+	"both conventions in use (L+1-k in shuffle, slicing L-k in "
+	"dinucleotide_shuffle) imply",
 ]
-REQUIRED = {"numpy_int_seed_calls": 20, "long_region_calls": 8,
+REQUIRED = {"numpy_int_seed_calls": 20, "negative_end_calls": 20, "long_region_calls": 8,
 	"walks_enumerated": 50, "dinuc_returned": 50,
 	"shuffle_returned": 50}
 TIMEOUT = {"quick": 900, "thorough": 5400}
@@ -112,6 +114,14 @@ def case_api(cls, params, rec):
 	else:
 		s, e = params["start"], params["end"]
 		kw.update(start=s, end=e)
+		if e < 0:
+			# negative end -k: shuffle documents L + 1 - k, the slicing in
+			# dinucleotide_shuffle gives L - k.  Judged on what both imply:
+			# positions >= L + 1 - k untouched and the composition of
+			# [s, L + 1 - k) preserved (under the second reading position
+			# L - k is a preserved flank / the preserved last character)
+			e = L + 1 + e
+			rec.count("negative_end_calls")
 	mon = gen.Immutable(X=X)
 	st, val = gen.call(f, X, **kw)
 	if mon.changed():
@@ -136,7 +146,7 @@ def case_api(cls, params, rec):
 		d = check_shuffle_output(kind, idx[b], val[b], s, e, A)
 		if d is not None:
 			d.update(sequence=strs(idx[b:b + 1], A)[0], start=s, end=e,
-				example=b)
+				end_argument=params.get("end"), example=b)
 			rec.violation(cls, params, d, mech="C02/" + (
 				"composition" if "counts" in d["what"] or "first" in d["what"]
 				else "flank" if "outside" in d["what"] else "not-one-hot"))
@@ -387,6 +397,13 @@ def run_unit(unit, rec):
 						"seedkind": "npint" if k % 8 == 0 else "int"}, rec)
 		run_case(cls, {"fn": fn, "A": A, "seqs": "all:%d" % L,
 			"default": True, "n": 2, "seed": 3}, rec)
+		# ends counted from the right-hand edge
+		for s in range(0, L):
+			for e in range(-2, -L - 1, -1):
+				if L + 1 + e > s:
+					run_case(cls, {"fn": fn, "A": A, "seqs": "all:%d" % L,
+						"start": s, "end": e, "n": 2, "seed": 5,
+						"determinism": False}, rec)
 		rec.mark_exhaustive(cls)
 	elif unit["cls"] == "api-long":
 		r = gen.pyrng("C02long", unit["seed"], unit["k"])
@@ -420,6 +437,8 @@ def run_unit(unit, rec):
 			regions = [(0, L), (0, L - 1), (1, L), "default"]
 			a, b = sorted(r.sample(range(0, L + 1), 2))
 			regions.append((a, b))
+			if b < L:
+				regions.append((a, b - L - 1))
 			for reg in regions:
 				pr = {"fn": fn, "A": A, "seqs": seqs, "n": r.randint(1, 20),
 					"seed": r.choice([None, 0, 1, 12345, unit["seed"] + 99]),
